@@ -4,6 +4,7 @@ import (
 	"bytes"
 	"context"
 	"fmt"
+	"os"
 	"sort"
 
 	"github.com/brimdata/super"
@@ -205,6 +206,13 @@ func (e *Env) LearnObject(obs *Client, pm *PoolM, o *data.Object, sig string) (*
 		recs = append(recs, e.Recs[u])
 	}
 	e.Objs[o.ID] = info
+	if os.Getenv("VERIF_DEBUG") != "" {
+		s := ""
+		for _, r := range recs {
+			s += fmt.Sprintf(" %d:%s", r.U, r.keyString())
+		}
+		fmt.Fprintf(os.Stderr, "DEBUG object %s min=%s max=%s:%s\n", o.ID, zson.FormatValue(o.Min), zson.FormatValue(o.Max), s)
+	}
 	if int(o.Count) != len(info.Us) {
 		return info, kernel.Violatef(sig+":object-count", "object %s: metadata count %d, object holds %d values", o.ID, o.Count, len(info.Us))
 	}
@@ -427,6 +435,12 @@ func (e *Env) CheckScan(c *Client, pm *PoolM, rev string, want []int, sig, when 
 		recs[i] = e.Recs[u]
 	}
 	if v := checkOrder(recs, pm.Spec.Desc, sig+":scan-order", fmt.Sprintf("%s: %q", when, src)); v != nil {
+		v.Message += "\n sequence (u:key):"
+		for i, r := range recs {
+			if i < 60 {
+				v.Message += fmt.Sprintf(" %d:%s", r.U, r.keyString())
+			}
+		}
 		return v
 	}
 	vals2, err := c.Query(e.Ctx, src)
